@@ -126,6 +126,14 @@ CLAIMED = {
         note="Trusted as C04; ThreadPoolExecutor.map / Pool.imap ordered; tf.data deterministic interleave (oracle).",
         technique="Coq proof (filler refinement to the list of accepted writes) + differential histories and cross-interface determinism runs",
         design="7/C03"),
+    "C20": dict(
+        text="Coq theorems: the version gate found in _load (comparison regenerated from the source, running version read from sedpack/__init__.py) refuses a dataset exactly when the recorded MAJOR.MINOR.PATCH is "
+             "strictly newer, for all triples; the same version loads; omitting default-valued fields and restoring defaults is the identity field by field. PARTIAL: the JSON/pydantic round trip of whole descriptions and "
+             "relocation are validated on the implementation: generated descriptions (unicode, nested JSON metadata at dataset/attribute/shard level, all formats/compressions/algorithm tuples) must reopen equal; datasets copied or moved to "
+             "nested/unicode/blank/relative/'..'-relative locations must open, check, iterate and continue writing exactly like the original; gate outcomes on ~100 triples (multi-digit components) equal the model.",
+        note="Trusted: Coq kernel, translator, harness; pydantic/json/semver (oracles, compared); pre-release/build tags are outside the model.",
+        technique="Coq proof (lexicographic gate, all triples) over AST-generated comparison + differential descriptions, relocation and version runs",
+        design="7/C20"),
 }
 REASON_TODO = "not yet built: the Coq model/theorems for this property are scheduled later in the build order of DESIGN.md section 10; nothing is claimed until its check exists"
 
